@@ -450,6 +450,8 @@ func TestVerifC20(t *testing.T) {
 	if out == "" {
 		t.Skip("not driven by the verification harness")
 	}
+	// the process's own time zone is not UTC (containers usually run in UTC, users' machines do not): a duration has no zone
+	time.Local = time.FixedZone("PROC", 5*3600+1800)
 	seed, _ := strconv.ParseInt(os.Getenv("VERIF_SEED"), 10, 64)
 	nDur, _ := strconv.Atoi(os.Getenv("VERIF_C20_DURATIONS"))
 	nStr, _ := strconv.Atoi(os.Getenv("VERIF_C20_STRINGS"))
